@@ -628,6 +628,17 @@ def evs(v, specs, depth=0):
             outs.append(pl if pl is not None else dict(v, of=o))
         live = [o for o in outs if not (isinstance(o, dict) and o.get('k') == 'never')]
         return live or outs
+    if kk == 'elem' and isinstance(v.get('of'), dict) and v.get('via') in ('map', 'and_then', 'filter', 'map_or', 'map_or_else', 'is_some_and', 'then', 'inspect', 'unwrap_or_else', 'or_else'):
+        # the closure parameter of an Option adaptor whose receiver is known to be `Some(x)` on this path is x
+        outs = []
+        for x in evs(v['of'], specs, depth + 1)[:8]:
+            if isinstance(x, dict) and x.get('k') == 'never':
+                outs.append(x)
+                continue
+            pl = _payload(x) if _shape(x) == 'Some' else None
+            outs.append(pl if pl is not None else dict(v, of=x))
+        live = [o for o in outs if not (isinstance(o, dict) and o.get('k') == 'never')]
+        return live or outs
     if kk in ('elem', 'ref', 'deref') and isinstance(v.get('of' if kk == 'elem' else 'v'), dict):
         key = 'of' if kk == 'elem' else 'v'
         return [dict(v, **{key: x}) if not (isinstance(x, dict) and x.get('k') == 'never') else x for x in evs(v[key], specs, depth + 1)[:8]]
